@@ -424,7 +424,11 @@ func main() {
 	cfg := drv.Parse()
 	log.SetOutput(io.Discard) // hostFromForwarded logs parse errors through the std logger
 	r := drv.NewRand(cfg.Seed)
-	w := emit.NewWriter(cfg.Out, "C19_spec", 0, cfg.Only)
+	shard := 0 // quick: 16 shards
+	if !cfg.Quick {
+		shard = 1000 // thorough: ~70 k cases; bounded shards keep each coqc process small
+	}
+	w := emit.NewWriter(cfg.Out, "C19_spec", shard, cfg.Only)
 
 	// ---- configuration sweep
 	type point struct{ bits, paths, strat int }
